@@ -104,6 +104,11 @@ class Enumerate(Oracle):
                                      f"{op['i']}{op['a']} for {ins.vehicle_id} ({act(v0)}) was not carried out but the world changed: {diff}",
                                      key=f"C09/rejected_but_changed/{act(v0)}/{op['i']}"))
                 else:
+                    # the instructed activity with the instructed target
+                    st1 = v1.vehicle_state
+                    for f, val in op["a"].items():
+                        if f != "destination" and hasattr(st1, f) and getattr(st1, f) != val:
+                            out.append(V("C09", "accepted_other_target", k, f"{op['i']}{op['a']} for {ins.vehicle_id} accepted but the vehicle's activity names {f}={getattr(st1, f)!r}"))
                     # all side effects present: counts, indexes and assignment records are consistent on the result
                     bad = [x for x in c02_check(after, k) + c08_check(after, k) + c17_check(after, k) if _vkey(x) not in before]
                     if bad:
